@@ -216,6 +216,8 @@ def analyse_unit(name, canary=False, rlimit=None, seed=None):
     contracts = {}
     for s in unit["sources"]:
         contracts.update(s["contracts"])
+        for o_ in s.get("outlines", []):
+            contracts[f"{o_['method_of']}::{o_['name']}"] = {"spec": o_["spec"]}
     # ---- obligations
     obls = {}
     clause_lines = {}  # fnkey -> list of (abs_line, idx)
